@@ -270,6 +270,24 @@ theorem basic_requires_matching_secret (secrets : List (List Char × List Char))
   | none => simp [basicVerdict] at h
   | some up => exact ⟨up.1, up.2, rfl, by simpa [basicVerdict] using h⟩
 
+/-- The decision on a request depends only on that request's credentials and the htpasswd file in force:
+whatever happened on the scheme instance before (valid logins, failed attempts, repeated attempts, reloads),
+two histories that leave the same file in force judge the next attempt alike, namely by `basicVerdict`. -/
+theorem auth_decision_depends_only_on_attempt (s1 s2 : List (List Char × List Char)) (h1 h2 : List AuthOp)
+    (c : Option (List Char × List Char)) (hf : fileAfter s1 h1 = fileAfter s2 h2) :
+    (runAuth s1 (h1 ++ [.attempt c])).getLast? = (runAuth s2 (h2 ++ [.attempt c])).getLast? ∧
+    (runAuth s1 (h1 ++ [.attempt c])).getLast? = some (basicVerdict (fileAfter s1 h1) c) := by
+  rw [runAuth_append_attempt, runAuth_append_attempt, hf]
+  simp
+
+/-- In particular a pair that is not in the file is refused even directly after a valid login whose user and
+password concatenate to the same text. -/
+theorem colliding_pair_refused (secrets : List (List Char × List Char)) (h : List AuthOp)
+    (u p : List Char) (hn : (fileAfter secrets h).lookup u ≠ some p) :
+    (runAuth secrets (h ++ [.attempt (some (u, p))])).getLast? = some false := by
+  rw [runAuth_append_attempt]
+  simp [basicVerdict, hn]
+
 /-! ### The gate comes before the upstream -/
 
 /-- If lookup, access check and authentication all precede the first upstream contact in the statement order,
@@ -286,6 +304,26 @@ theorem gate_before_upstream (env : Env) (ss : List Step)
   simp [passes] at a b c
   exact ⟨a, b, c⟩
 
+/-- A route with `redirect=` is answered by fabio itself. If lookup, access check and authentication precede
+the redirect answer in the statement order, a request receives the redirect (status 3xx and the Location of
+the protected destination) only if it found the route, was not denied and was authorized — a refused request
+gets 403/401, never 3xx. -/
+theorem gate_before_redirect (env : Env) (ss : List Step) (c : Bool)
+    (ho : redirectOrdered [.lookup, .access, .auth] ss = true) (h : (runGate env ss c).1 = .redirected) :
+    env.found = true ∧ env.denied = false ∧ env.authorized = true := by
+  have hp := runGate_redirected env ss c h
+  simp only [redirectOrdered, List.all_cons, List.all_nil, Bool.and_true, Bool.and_eq_true,
+    List.contains_iff_mem] at ho
+  obtain ⟨h1, h2, h3⟩ := ho
+  have a := hp _ h1; have b := hp _ h2; have c' := hp _ h3
+  simp [passesR] at a b c'
+  exact ⟨a, b, c'⟩
+
+/-- … and a redirect route never contacts an upstream. -/
+theorem redirect_route_no_upstream (env : Env) (hr : env.redirect = true) :
+    (runGate env [.lookup, .access, .auth, .redirect, .upstream] false).2 = false := by
+  cases hf : env.found <;> cases hd : env.denied <;> cases ha : env.authorized <;> simp [runGate, hr, hf, hd, ha]
+
 /-- The TCP proxies have no authentication step: lookup and access check precede the dial. -/
 theorem gate_before_upstream_tcp (env : Env) (ss : List Step)
     (ho : gateOrdered [.lookup, .access] ss = true) (h : (runGate env ss false).2 = true) :
@@ -301,12 +339,12 @@ theorem gate_before_upstream_tcp (env : Env) (ss : List Step)
 /-- A denied or unauthorized request gets 403 resp. 401 in the coded order (and, by the theorem above, no
 upstream). -/
 theorem denied_gets_403 (env : Env) (hf : env.found = true) (hd : env.denied = true) :
-    runGate env [.lookup, .access, .auth, .upstream] false = (.forbidden, false) := by
+    runGate env [.lookup, .access, .auth, .redirect, .upstream] false = (.forbidden, false) := by
   simp [runGate, hf, hd]
 
 theorem unauthorized_gets_401 (env : Env) (hf : env.found = true) (hd : env.denied = false)
     (ha : env.authorized = false) :
-    runGate env [.lookup, .access, .auth, .upstream] false = (.unauthorized, false) := by
+    runGate env [.lookup, .access, .auth, .redirect, .upstream] false = (.unauthorized, false) := by
   simp [runGate, hf, hd, ha]
 
 /-! ### Non-vacuity -/
@@ -345,9 +383,17 @@ example : IPNet.contains ⟨⟨true, 0⟩, 128, 0⟩ ⟨false, 0x01020304⟩ = f
 example : authorized "nope".toList [("basic".toList, ())] (fun _ => true) = false := by decide
 example : authorized "basic".toList [("basic".toList, ())] (fun _ => basicVerdict [("u".toList, "p".toList)] (some ("u".toList, "p".toList))) = true := by decide
 -- gate order
-example : gateOrdered [.lookup, .access, .auth] [.lookup, .access, .auth, .upstream] = true := by decide
+example : gateOrdered [.lookup, .access, .auth] [.lookup, .access, .auth, .redirect, .upstream] = true := by decide
+example : redirectOrdered [.lookup, .access, .auth] [.lookup, .access, .auth, .redirect, .upstream] = true := by decide
+example : redirectOrdered [.lookup, .access, .auth] [.lookup, .redirect, .access, .auth, .upstream] = false := by decide
+example : (runGate ⟨true, false, true, true⟩ [.lookup, .access, .auth, .redirect, .upstream] false) = (.redirected, false) := by decide
+example : (runGate ⟨true, true, true, true⟩ [.lookup, .redirect, .access, .auth, .upstream] false) = (.redirected, false) := by decide
+-- the sequence the colliding-key cache got wrong: a/bc logs in, then ab/c is refused
+example : runAuth [("a".toList, "bc".toList)] [.attempt (some ("a".toList, "bc".toList)), .attempt (some ("ab".toList, "c".toList)),
+    .attempt (some ([], "abc".toList)), .reload [("ab".toList, "c".toList)], .attempt (some ("ab".toList, "c".toList)),
+    .attempt (some ("a".toList, "bc".toList))] = [true, false, false, true, false] := by decide
 example : gateOrdered [.lookup, .access] [.lookup, .upstream, .access] = false := by decide
-example : (runGate ⟨true, false, true⟩ [.lookup, .access, .auth, .upstream] false) = (.served, true) := by decide
+example : (runGate ⟨true, false, true, false⟩ [.lookup, .access, .auth, .redirect, .upstream] false) = (.served, true) := by decide
 end examples
 
 end Fabio.Props.C12
